@@ -28,6 +28,7 @@ type Options struct {
 	NoExport   bool   // skip R5
 	Dense      bool   // R4: a scheduling point before every statement of the logging path
 	ExtraFiles map[string]string // additional overlay entries (virtual path -> real file)
+	ExportFile string            // the R5 export file to add (default: VerifDir/_overlay/zz_verif_export.go)
 }
 
 type Report struct {
@@ -35,6 +36,8 @@ type Report struct {
 	Rewritten []string
 	R1, R2, R3, R4 int
 	Degraded  []string
+	ExportFile string   // the export file the overlay adds (after the NoShim rewrite, if any)
+	Stubbed    []string // functions of the export file replaced by stubs (see StubExport)
 }
 
 var mapRangeIdents = map[string]bool{"knownPathMap": true, "codeHostingProvidersMap": true}
@@ -118,6 +121,10 @@ func Generate(o Options) (*Report, error) {
 	}
 	if !o.NoExport {
 		exp := filepath.Join(o.VerifDir, "_overlay", "zz_verif_export.go")
+		if o.ExportFile != "" {
+			exp = o.ExportFile
+		}
+		rep.ExportFile = exp
 		if o.NoShim {
 			// the export file refers to the shim pool type; give it the real one
 			b, err := os.ReadFile(exp)
@@ -129,6 +136,7 @@ func Generate(o Options) (*Report, error) {
 			if err := os.WriteFile(exp, b, 0o644); err != nil {
 				return nil, err
 			}
+			rep.ExportFile = exp
 		}
 		replace[filepath.Join(build, "slog", "zz_verif_export.go")] = exp
 	}
@@ -305,4 +313,108 @@ func instrList(list []ast.Stmt, point func() ast.Stmt, doStmt func(ast.Stmt)) []
 		out = append(out, point(), s)
 	}
 	return out
+}
+
+// StubExport writes a copy of the export file src to dst in which every
+// function whose source range contains one of the given lines has its body
+// replaced by a stub: mark the function as degraded, return zero values.
+// It returns the names of the functions stubbed by this call (empty: no
+// line fell inside a function body that can be stubbed).
+func StubExport(src, dst string, lines []int) ([]string, error) {
+	fset := token.NewFileSet()
+	f, err := parser.ParseFile(fset, src, nil, parser.ParseComments)
+	if err != nil {
+		return nil, err
+	}
+	b, err := os.ReadFile(src)
+	if err != nil {
+		return nil, err
+	}
+	type repl struct {
+		from, to int
+		text     string
+	}
+	var repls []repl
+	var names []string
+	for _, d := range f.Decls {
+		fd, ok := d.(*ast.FuncDecl)
+		if !ok || fd.Body == nil || fd.Name.Name == "verifMark" || fd.Name.Name == "VerifDegradedUsed" {
+			continue
+		}
+		l0, l1 := fset.Position(fd.Pos()).Line, fset.Position(fd.End()).Line
+		hit := false
+		for _, ln := range lines {
+			if ln >= l0 && ln <= l1 {
+				hit = true
+			}
+		}
+		if !hit {
+			continue
+		}
+		body := string(b[fset.Position(fd.Body.Pos()).Offset:fset.Position(fd.Body.End()).Offset])
+		if strings.Contains(body, "verifMark(\""+fd.Name.Name+"\")") {
+			continue // already a stub: the error is in its signature, nothing more can be done here
+		}
+		var sb strings.Builder
+		fmt.Fprintf(&sb, "{\n\tverifMark(%q)\n", fd.Name.Name)
+		if fd.Type.Results != nil && len(fd.Type.Results.List) > 0 {
+			var rets []string
+			n := 0
+			for _, fld := range fd.Type.Results.List {
+				var tb bytes.Buffer
+				if err := format.Node(&tb, fset, fld.Type); err != nil {
+					return nil, err
+				}
+				cnt := len(fld.Names)
+				if cnt == 0 {
+					cnt = 1
+				}
+				for k := 0; k < cnt; k++ {
+					v := fmt.Sprintf("verifZero%d", n)
+					n++
+					fmt.Fprintf(&sb, "\tvar %s %s\n", v, tb.String())
+					rets = append(rets, v)
+				}
+			}
+			fmt.Fprintf(&sb, "\treturn %s\n", strings.Join(rets, ", "))
+		}
+		sb.WriteString("}")
+		repls = append(repls, repl{fset.Position(fd.Body.Pos()).Offset, fset.Position(fd.Body.End()).Offset, sb.String()})
+		names = append(names, fd.Name.Name)
+	}
+	if len(repls) == 0 {
+		return nil, nil
+	}
+	out := make([]byte, 0, len(b))
+	pos := 0
+	for _, r := range repls {
+		out = append(out, b[pos:r.from]...)
+		out = append(out, r.text...)
+		pos = r.to
+	}
+	out = append(out, b[pos:]...)
+	// unused imports after stubbing would break the build: keep every import referenced
+	var keep strings.Builder
+	keep.WriteString("\n// keep the imports used after stubbing\nvar (\n")
+	for _, imp := range f.Imports {
+		pth, _ := strconv.Unquote(imp.Path.Value)
+		name := filepath.Base(pth)
+		if imp.Name != nil {
+			name = imp.Name.Name
+		}
+		if sym, ok := importAnchor[pth]; ok {
+			fmt.Fprintf(&keep, "\t_ = %s.%s\n", name, sym)
+		}
+	}
+	keep.WriteString(")\n")
+	out = append(out, keep.String()...)
+	return names, os.WriteFile(dst, out, 0o644)
+}
+
+// one exported symbol per package the export file imports (to keep imports used in a stubbed copy)
+var importAnchor = map[string]string{
+	"cmp": "Compare[int]", "fmt": "Sprint", "io": "EOF", "iter": "Pull[int]", "os": "Getpid", "regexp": "MustCompile", "sort": "Strings",
+	"strings": "TrimSpace", "time": "Now", "sync": "NewCond", "verif/shim/vsync": "NoPoolChoice",
+	"github.com/hedzr/is": "DebugMode", "github.com/hedzr/is/term/color": "NoColor",
+	"github.com/hedzr/logg/slog/internal/strings": "DotPrefix", "github.com/hedzr/logg/slog/internal/times": "ParseDuration",
 }
